@@ -600,7 +600,10 @@ class Ctx:
             st["outcomes"][kind] = st["outcomes"].get(kind, 0) + 1
             if nontrivial is None or nontrivial(c, i):
                 self.nontrivial.add(hashlib.sha256(c.encode()).digest()[:12])
-            if i != m:
+            if i == "na" and m != "na":
+                # the hook reports that this backend is not compiled in / not supported by this CPU: nothing to compare
+                st["not_available"] = st.get("not_available", 0) + 1
+            elif i != m:
                 st["disagreements"] += 1
                 self.correspondence_failures.append({"suite": suite, "case": c, "impl": i, "model": m, "flags": list(flags), "config": cfgname})
             if predicate is not None:
